@@ -41,10 +41,16 @@ def classify_line(raw: str):
 
 
 def failing_run(ctx, ws):
-    """An operation that fails inside the matcher (the rule compiles to an invalid regex) on some other listing, run right
-    before a judged listing: nothing of it may reach the next listing's stream."""
-    lp = ws.write("other.s", "  401000:\t55                   \tpush   %rbp\n  401001:\tc3                   \tret\n")
-    rp = ws.write("badregex.yaml", "pattern:\n  - 'mov('\n")
+    """An operation that fails on some other listing, run right before a judged listing: nothing of it may reach the next listing's
+    stream. Either the rule compiles to an invalid regex (the run fails when the matcher is applied), or an observer raises in the
+    middle of the listing (valid_addr_range meets a branch operand that is not an address)."""
+    if ctx.rng.random() < 0.5:
+        lp = ws.write("other.s", "  401000:\t55                   \tpush   %rbp\n  401001:\tc3                   \tret\n")
+        rp = ws.write("badregex.yaml", "pattern:\n  - 'mov('\n")
+    else:
+        lp = ws.write("other.s", "  401000:\t55                   \tpush   %rbp\n  401001:\t48 89 e5             \tmov    %rsp,%rbp\n"
+                                 "  401004:\tff d0                \tcall   rax\n  401006:\tc3                   \tret\n")
+        rp = ws.write("badregex.yaml", "config:\n  valid_addr_range:\n    min: '0'\n    max: 'ffffff'\npattern:\n  - push\n")
     r = real.match(rp, lp, ret="bool")
     ctx.event("preceding_failed_runs" if r[0] == "exc" else "preceding_runs_did_not_fail")
 
@@ -150,9 +156,24 @@ def block_boundary_stratum(ctx, ws, n):
         _judge_listing(ctx, ws, text, f"block-boundary/{B}/col{col}")
 
 
+def count_boundary_stratum(ctx, ws, n):
+    """Listings with more instructions than a power of two that buffered / chunked processing would use (2^16, 2^17 instructions)."""
+    rng = ctx.rng
+    for i in range(n):
+        count = [2 ** 16, 2 ** 17, 2 ** 15][(ctx.shard + i) % 3] + rng.randint(3, 400)
+        body = [("90", "nop"), ("c3", "ret"), ("50", "push   %rax"), ("48 89 e5", "mov    %rsp,%rbp")]
+        lines = ["", "big.bin:     file format elf64-x86-64", "", "", "Disassembly of section .text:", "", "0000000000401000 <f>:"]
+        for j in range(count):
+            b, t = body[j % len(body)] if j % 97 else rng.choice(body)
+            lines.append(f"  {0x401000 + 4 * j:x}:\t{b:<21}\t{t}")
+        ctx.event("count_boundary_listings")
+        _judge_listing(ctx, ws, "\n".join(lines) + "\n", f"count-boundary/{count}")
+
+
 def run_shard(ctx):
     ws = real.Workspace()
     block_boundary_stratum(ctx, ws, ctx.share(24, 240))
+    count_boundary_stratum(ctx, ws, ctx.share(3, 48))
     if ctx.shard == 0:
         for f in objd.fixtures():
             with open(f, encoding="utf-8", errors="replace") as fh:
